@@ -25,7 +25,7 @@ Definition sk_milestones : string := "call make; range *eventChan { switch { cas
 Definition sk_index : string := "call make; call make; if isMap {  }; range nodes { typeswitch { case string: if !ok { call make }; call append | case []any: range classes.([]any) { if !ok { call make }; call append } } }; call createLocationIndex; call make; range classIndex[""http://a.ml/vocabularies/document-source-maps#SourceMap""] { call handleSingleOrMultipleNodes; call addLexicalEntryFrom }; return".
 Definition sk_add_lexical_entry : string := "if ok { call Location }".
 Definition sk_create_location_index : string := "if len(sourceInformation) > 0 { call make; call handleSingleOrMultipleNodes; call addElementsOfLoc; return } else { return call make }".
-Definition sk_add_elements_of_loc : string := "call resolveLocation; call handleSingleOrMultipleNodes".
+Definition sk_add_elements_of_loc : string := "call handleSingleOrMultipleNodes".
 Definition sk_handle_single_or_multiple : string := "typeswitch { case types.ObjectMap: call operation | case []any: range v { typeswitch { case types.ObjectMap: call operation } } | case default:  }".
 Definition sk_location : string := "if exists { return } else { return }".
 Definition sk_normalize : string := "call NewJsonLdProcessor; call NewJsonLdOptions; call make; call Flatten; if err != nil { call panic }; return".
